@@ -109,25 +109,41 @@ Definition finite_b (f : float) : bool :=
 
 (* ---------- addrConn backoff pacing ----------
    One subchannel (pick_first, one address).  Virtual time in ns.
-   PIdle      : no transport, nothing scheduled (IDLE; waits for Connect)
-   PBackoff T : the last attempt failed; TRANSIENT_FAILURE, backoff timer fires at T
-   PReady     : connected                                                         *)
-Inductive phase := PIdle | PBackoff (t : Z) | PReady.
-Record pstate := mkp { now : Z; okmode : bool; idx : Z; ph : phase }.
+   PIdle            : no transport, nothing scheduled (IDLE; waits for Connect)
+   PConnecting T B  : a connection attempt is in flight and will fail at T (a slowly
+                      failing dial); B = backoffFor computed when the attempt started
+   PBackoff T       : the last attempt failed; TRANSIENT_FAILURE, backoff timer fires at T
+   PReady           : connected
+   fdelay : how long a failing dial takes (0 = fails at once); sticky : the channel has
+   reported TRANSIENT_FAILURE since it was last READY (pick_first keeps reporting it while
+   the sub-channel reconnects)                                                          *)
+Inductive phase := PIdle | PConnecting (t b : Z) | PBackoff (t : Z) | PReady.
+Record pstate := mkp { now : Z; okmode : bool; idx : Z; ph : phase; fdelay : Z; sticky : bool }.
 
-Definition pinit : pstate := mkp 0 false 0 PIdle.
+Definition pinit : pstate := mkp 0 false 0 PIdle 0 false.
 
 (* the deterministic strategy used for pacing (Jitter = 0: the factor is exactly 1) *)
 Definition bo (c : config) (i : Z) : Z := backoff c i 0%float.
 
-(* resetTransportAndUnlock at time [now s]: backoffFor := Backoff(backoffIdx); the dial
-   either succeeds (backoffIdx = 0, READY) or fails (TRANSIENT_FAILURE, timer) *)
-Definition dial (c : config) (s : pstate) : pstate :=
-  if okmode s then mkp (now s) (okmode s) 0 PReady
-  else mkp (now s) (okmode s) (idx s) (PBackoff (now s + bo c (idx s))).
+(* MinConnectTimeout of the driver's ClientConn; the dial context expires after
+   max(MinConnectTimeout, backoffFor) *)
+Definition mct : Z := 1000000000.
+Definition fail_after (c : config) (i h : Z) : Z := Z.min h (Z.max mct (bo c i)).
 
-(* time passes until [target]; each expiring timer does backoffIdx++, IDLE, and
-   pick_first immediately reconnects.  Returns the dial times. *)
+(* resetTransportAndUnlock at time [now s]: backoffFor := Backoff(backoffIdx); the dial
+   either succeeds (backoffIdx = 0, READY), fails at once (TRANSIENT_FAILURE, timer
+   backoffFor), or fails after fail_after (then TRANSIENT_FAILURE, timer backoffFor) *)
+Definition dial (c : config) (s : pstate) : pstate :=
+  if okmode s then mkp (now s) (okmode s) 0 PReady (fdelay s) false
+  else if fdelay s <=? 0 then
+    mkp (now s) (okmode s) (idx s) (PBackoff (now s + bo c (idx s))) (fdelay s) true
+  else
+    mkp (now s) (okmode s) (idx s)
+        (PConnecting (now s + fail_after c (idx s) (fdelay s)) (bo c (idx s))) (fdelay s) (sticky s).
+
+(* time passes until [target]; a slow dial fails (timer armed from the moment of the
+   failure); each expiring timer does backoffIdx++, IDLE, and pick_first immediately
+   reconnects.  Returns the dial times. *)
 Fixpoint advance (fuel : nat) (c : config) (target : Z) (s : pstate) : option (pstate * list Z) :=
   match ph s with
   | PBackoff t =>
@@ -135,20 +151,32 @@ Fixpoint advance (fuel : nat) (c : config) (target : Z) (s : pstate) : option (p
       match fuel with
       | O => None
       | S f =>
-        let s1 := dial c (mkp t (okmode s) (idx s + 1) PIdle) in
+        let s1 := dial c (mkp t (okmode s) (idx s + 1) PIdle (fdelay s) (sticky s)) in
         match advance f c target s1 with
         | Some (s2, ds) => Some (s2, t :: ds)
         | None => None
         end
       end
-    else Some (mkp target (okmode s) (idx s) (ph s), [])
-  | _ => Some (mkp target (okmode s) (idx s) (ph s), [])
+    else Some (mkp target (okmode s) (idx s) (ph s) (fdelay s) (sticky s), [])
+  | PConnecting t b =>
+    if t <=? target then
+      match fuel with
+      | O => None
+      | S f => advance f c target (mkp t (okmode s) (idx s) (PBackoff (t + b)) (fdelay s) true)
+      end
+    else Some (mkp target (okmode s) (idx s) (ph s) (fdelay s) (sticky s), [])
+  | _ => Some (mkp target (okmode s) (idx s) (ph s) (fdelay s) (sticky s), [])
   end.
 
 Definition state_code (s : pstate) : Z :=
-  match ph s with PIdle => 0 | PBackoff _ => 3 | PReady => 2 end.
+  match ph s with
+  | PIdle => 0
+  | PConnecting _ _ => if sticky s then 3 else 1
+  | PBackoff _ => 3
+  | PReady => 2
+  end.
 
-Definition adv_fuel : nat := 80.
+Definition adv_fuel : nat := 200.
 
 (* configurations for which the pacing ops are executed (driver and model agree):
    Jitter = +0, Multiplier >= 1 finite, 1ms <= base, base <= max, both below 2^53 *)
@@ -159,34 +187,55 @@ Definition pacing_ok (c : config) : bool :=
 
 (* pacing ops:  [2; m] dial outcome mode   [3; dt] let dt ns pass   [4] ResetConnectBackoff
                 [5] drop the connection    [6] cc.Connect()
-   observation of each: [ndials; t1..tn; connectivity state]                        *)
+                [7; h] from now on a failing dial takes h ns to fail (TCP accepted, no
+                       server preface; bounded by the connect deadline)
+   observation of each: [ndials; t1..tn; connectivity state]
+   ResetConnectBackoff is skipped (by driver and model) while a dial is in flight.     *)
 Definition pobs (ds : list Z) (s : pstate) : word := Z.of_nat (length ds) :: ds ++ [state_code s].
 
-Definition pstep (c : config) (s : pstate) (op : word) : option (pstate * word) :=
+Inductive pop := Pmode (m : Z) | Padv (dt : Z) | Preset | Pdrop | Pconnect | Pdelay (h : Z).
+Definition pop_of (op : word) : option pop :=
   match op with
-  | [2; m] => let s' := mkp (now s) (negb (m =? 0)) (idx s) (ph s) in Some (s', pobs [] s')
-  | [3; dt] =>
+  | [2; m] => Some (Pmode m)
+  | [3; dt] => Some (Padv dt)
+  | [4] => Some Preset
+  | [5] => Some Pdrop
+  | [6] => Some Pconnect
+  | [7; h] => Some (Pdelay h)
+  | _ => None
+  end.
+
+Definition pstep (c : config) (s : pstate) (op : word) : option (pstate * word) :=
+  match pop_of op with
+  | Some (Pmode m) =>
+    let s' := mkp (now s) (negb (m =? 0)) (idx s) (ph s) (fdelay s) (sticky s) in Some (s', pobs [] s')
+  | Some (Padv dt) =>
     if (dt <? 0) || (60 * base c <? dt) then None else
     match advance adv_fuel c (now s + dt) s with
     | Some (s', ds) => Some (s', pobs ds s')
     | None => None
     end
-  | [4] =>
+  | Some Preset =>
     match ph s with
-    | PBackoff _ => let s' := dial c (mkp (now s) (okmode s) 0 PIdle) in Some (s', pobs [now s] s')
-    | _ => let s' := mkp (now s) (okmode s) 0 (ph s) in Some (s', pobs [] s')
+    | PBackoff _ =>
+      let s' := dial c (mkp (now s) (okmode s) 0 PIdle (fdelay s) (sticky s)) in Some (s', pobs [now s] s')
+    | PConnecting _ _ => Some (s, pobs [] s)
+    | _ => let s' := mkp (now s) (okmode s) 0 (ph s) (fdelay s) (sticky s) in Some (s', pobs [] s')
     end
-  | [5] =>
+  | Some Pdrop =>
     match ph s with
-    | PReady => let s' := mkp (now s) (okmode s) (idx s) PIdle in Some (s', pobs [] s')
+    | PReady => let s' := mkp (now s) (okmode s) (idx s) PIdle (fdelay s) (sticky s) in Some (s', pobs [] s')
     | _ => Some (s, pobs [] s)
     end
-  | [6] =>
+  | Some Pconnect =>
     match ph s with
     | PIdle => let s' := dial c s in Some (s', pobs [now s] s')
     | _ => Some (s, pobs [] s)
     end
-  | _ => None
+  | Some (Pdelay h) =>
+    if h <? 0 then None else
+    let s' := mkp (now s) (okmode s) (idx s) (ph s) h (sticky s) in Some (s', pobs [] s')
+  | None => None
   end.
 
 (* ---------- cases ---------- *)
@@ -265,13 +314,15 @@ Definition run_nd (cfg : word) (ops impl : list word) : option (list word) :=
       (expressed through the monitor's index, which success resets)
    The pacing monitor derives the index from the observed dials only. *)
 
-Record mon := mkm { m_ok : bool; m_idx : Z; m_last : option Z; m_fresh : bool; m_dials : Z }.
-Definition minit : mon := mkm false 0 None false 0.
+Record mon := mkm { m_ok : bool; m_idx : Z; m_last : option Z; m_fresh : bool; m_dials : Z; m_delay : Z }.
+Definition minit : mon := mkm false 0 None false 0 0.
 
 (* process the dial times of one observation; [explicit] = the first dial of the op
    answers an explicit request (ResetConnectBackoff or Connect) and is not paced.
-   Result: monitor, clause 7 (no early retry), clause 8 (after a success the first
-   retry comes after exactly Backoff(0)). *)
+   m_last = the time at which the last failed attempt failed (dial time + the time the
+   failing dial takes, an input).  Result: monitor, clause 7 (no retry earlier than the
+   failure + Backoff(i)), clause 8 (after a success the first retry comes after exactly
+   Backoff(0)). *)
 Fixpoint mon_dials (c : config) (m : mon) (explicit : bool) (ds : list Z) : mon * bool * bool :=
   match ds with
   | [] => (m, true, true)
@@ -286,8 +337,9 @@ Fixpoint mon_dials (c : config) (m : mon) (explicit : bool) (ds : list Z) : mon 
                | None => true
                end in
     let i1 := if paced then m_idx m + 1 else m_idx m in
-    let m1 := if m_ok m then mkm (m_ok m) 0 None true (m_dials m + 1)
-              else mkm (m_ok m) i1 (Some t) (if paced then false else m_fresh m) (m_dials m + 1) in
+    let tf := if m_delay m <=? 0 then t else t + fail_after c i1 (m_delay m) in
+    let m1 := if m_ok m then mkm (m_ok m) 0 None true (m_dials m + 1) (m_delay m)
+              else mkm (m_ok m) i1 (Some tf) (if paced then false else m_fresh m) (m_dials m + 1) (m_delay m) in
     let '(m2, a, b) := mon_dials c m1 false r in
     (m2, ok7 && a, ok8 && b)
   end.
@@ -311,15 +363,21 @@ Definition clause_backoff (c : config) (n d : Z) : list (Z * Z * bool) :=
 Definition mon_step (c : config) (m : mon) (op o : word) : option (mon * bool * bool) :=
   match split_pobs o with
   | Some (ds, st) =>
-    let m0 := match op with
-              | [2; md] => mkm (negb (md =? 0)) (m_idx m) (m_last m) (m_fresh m) (m_dials m)
-              | [4] => mkm (m_ok m) 0 (m_last m) false (m_dials m)
+    let m0 := match pop_of op with
+              | Some (Pmode md) => mkm (negb (md =? 0)) (m_idx m) (m_last m) (m_fresh m) (m_dials m) (m_delay m)
+              | Some Preset =>
+                (* skipped while a dial is in flight: no dial although a failure is pending *)
+                match ds, m_last m with
+                | [], Some _ => m
+                | _, _ => mkm (m_ok m) 0 (m_last m) false (m_dials m) (m_delay m)
+                end
+              | Some (Pdelay h) => mkm (m_ok m) (m_idx m) (m_last m) (m_fresh m) (m_dials m) h
               | _ => m end in
-    let explicit := match op with [4] => true | [6] => true | _ => false end in
+    let explicit := match pop_of op with Some Preset => true | Some Pconnect => true | _ => false end in
     let '(m1, ok7, ok8) := mon_dials c m0 explicit ds in
     (* a dropped READY connection leaves no pending wait *)
-    let m2 := match op with
-              | [5] => if st =? 0 then mkm (m_ok m1) (m_idx m1) None (m_fresh m1) (m_dials m1) else m1
+    let m2 := match pop_of op with
+              | Some Pdrop => if st =? 0 then mkm (m_ok m1) (m_idx m1) None (m_fresh m1) (m_dials m1) (m_delay m1) else m1
               | _ => m1 end in
     Some (m2, ok7, ok8)
   | None => None
